@@ -138,8 +138,8 @@ def plan_for(prop, tier, seed):
             p["jobs"] += [ex("miri-rel", "sharing", 2, 55, 2, seed + 55, weight=10, timeout=1500, label="miri-release-profile")]
         # "released exactly once ... when all handles are gone nothing remains allocated" also when the
         # handles are released from different threads: the concurrent runner's heap accounting, labelled C03
-        p["jobs"] += [eng("native-rel", "conc", ["--shim", "shadow", "--programs", 1500 if quick else 20000, "--execs", 10 if quick else 40, "--spin", 200, "--prop", 3], 6, seed + 53, weight=3, label="native-rel(threads)"),
-                      eng("native-dbg", "conc", ["--shim", "shadow", "--programs", 300 if quick else 3000, "--execs", 10, "--spin", 50, "--prop", 3], 2, seed + 54, weight=3, label="native-dbg(threads)")]
+        p["jobs"] += [eng("native-rel", "conc", ["--shim", "shadow", "--programs", 1500 if quick else 20000, "--execs", 10 if quick else 40, "--spin", 200, "--hammer-permille", 100, "--prop", 3], 6, seed + 53, weight=3, label="native-rel(threads)"),
+                      eng("native-dbg", "conc", ["--shim", "shadow", "--programs", 300 if quick else 3000, "--execs", 10, "--spin", 50, "--hammer-permille", 60, "--prop", 3], 2, seed + 54, weight=3, label="native-dbg(threads)")]
         for i in range(4 if quick else 12):
             p["jobs"].append(eng("miri", "conc", ["--shim", "count", "--programs", 12 if quick else 40, "--execs", 3 if quick else 6, "--yield-permille", 300, "--prop", 3], 1, seed * 139 + i, weight=10, timeout=1500 if quick else 10000,
                                  miriflags="-Zmiri-seed=%d -Zmiri-preemption-rate=0.05" % (seed * 991 + i), label="miri(threads)"))
@@ -153,15 +153,21 @@ def plan_for(prop, tier, seed):
         nshard = 16 if quick else 48
         for i in range(nshard):
             rate, yp = combos[i % len(combos)]
-            jobs.append(eng("miri", "conc", ["--shim", "count", "--programs", 18 if quick else 60, "--execs", 3 if quick else 8, "--yield-permille", yp],
+            # every third shard with the release profile: the crate's debug assertions contain Acquire loads
+            # (debug_assert!(self.is_unique())) that would otherwise restore a missing happens-before edge
+            fl = "miri-rel" if i % 3 == 2 else "miri"
+            # ... and those shards, plus one debug-profile shard in eight, run only "directed pairs" (one thread
+            # gives its handle up while the other makes ONE copy-or-in-place decision, every decision site in turn)
+            directed = 1000 if (fl == "miri-rel" or i % 8 == 0) else 250
+            jobs.append(eng(fl, "conc", ["--shim", "count", "--programs", 18 if quick else 60, "--execs", 3 if quick else 8, "--yield-permille", yp, "--directed-permille", directed],
                             1, seed * 131 + i, weight=10, timeout=1500 if quick else 10000,
-                            miriflags="-Zmiri-seed=%d -Zmiri-preemption-rate=%s" % (seed * 1000 + i, rate), label="miri(preempt=%s,yield=%d)" % (rate, yp)))
+                            miriflags="-Zmiri-seed=%d -Zmiri-preemption-rate=%s" % (seed * 1000 + i, rate), label="%s(preempt=%s,yield=%d)" % (fl, rate, yp)))
         if not quick:
             for i in range(4):
                 jobs.append(eng("miri", "conc", ["--shim", "count", "--programs", 40, "--execs", 6, "--yield-permille", 300], 1, seed * 137 + i, weight=10, timeout=10000,
                                 miriflags="-Zmiri-tree-borrows -Zmiri-seed=%d -Zmiri-preemption-rate=0.05" % (seed * 77 + i), label="miri-tree-borrows"))
-        jobs.append(eng("native-rel", "conc", ["--shim", "shadow", "--programs", 1500 if quick else 20000, "--execs", 10 if quick else 40, "--spin", 200], 8, seed, weight=3))
-        jobs.append(eng("native-dbg", "conc", ["--shim", "shadow", "--programs", 300 if quick else 4000, "--execs", 10, "--spin", 50], 4, seed, weight=3))
+        jobs.append(eng("native-rel", "conc", ["--shim", "shadow", "--programs", 1500 if quick else 20000, "--execs", 10 if quick else 40, "--spin", 200, "--hammer-permille", 100], 8, seed, weight=3))
+        jobs.append(eng("native-dbg", "conc", ["--shim", "shadow", "--programs", 300 if quick else 4000, "--execs", 10, "--spin", 50, "--hammer-permille", 60], 4, seed, weight=3))
         p["jobs"] = jobs
     elif n == 5:
         p["level"] = "fault_enumeration"
@@ -204,7 +210,7 @@ def plan_for(prop, tier, seed):
         jobs += sharded("miri", "clones", ["--max-big-len", 65536], 16, seed + 2, **MT)
         jobs += explore_mix(["sharing", "static", "default"], tier, seed + 3, q_hist=800, miri=False)
         # "dropping either one leaves the other intact", also when clones are taken and dropped on other threads
-        jobs += [eng("native-rel", "conc", ["--shim", "shadow", "--programs", 1500 if quick else 20000, "--execs", 10 if quick else 40, "--spin", 200, "--prop", 8], 6, seed + 53, weight=3, label="native-rel(threads)")]
+        jobs += [eng("native-rel", "conc", ["--shim", "shadow", "--programs", 1500 if quick else 20000, "--execs", 10 if quick else 40, "--spin", 200, "--hammer-permille", 100, "--prop", 8], 6, seed + 53, weight=3, label="native-rel(threads)")]
         for i in range(4 if quick else 12):
             jobs.append(eng("miri", "conc", ["--shim", "count", "--programs", 12 if quick else 40, "--execs", 3 if quick else 6, "--yield-permille", 300, "--prop", 8], 1, seed * 149 + i, weight=10, timeout=1500 if quick else 10000,
                             miriflags="-Zmiri-seed=%d -Zmiri-preemption-rate=0.05" % (seed * 997 + i), label="miri(threads)"))
@@ -215,6 +221,9 @@ def plan_for(prop, tier, seed):
         jobs += sharded("miri", "construct", ["--reps", 1], 24 if quick else 6, seed + 2, **MT)
         jobs += explore_mix(["inline", "default"], tier, seed + 3, q_hist=1200, miri=False)
         jobs += [ex("miri", "inline", 2 if quick else 12, 55, 4, seed + 5, **MT)]
+        # the inline limit is two machine words: 8 bytes on 32-bit targets
+        jobs += sharded("miri-i686", "construct", ["--reps", 1], 2 if quick else 12, seed + 6, mod=48 if quick else 12, label="miri-i686", **MT)
+        jobs += [ex("miri-i686", "inline", 2 if quick else 8, 55, 1 if quick else 4, seed + 7, label="miri-i686", **MT)]
         p["jobs"] = jobs
     elif n == 10:
         p["jobs"] = explore_mix(["static"], tier, seed, q_hist=1500) + [
@@ -323,7 +332,7 @@ def plan_for(prop, tier, seed):
     return p
 
 
-RULE_C04 = ("random programs from the property's grammar: one heap buffer (17-64 bytes, optional spare capacity), 2-3 threads (the main thread is one of them) each owning a clone (optionally pre-truncated) or borrowing &LeanString, each running 1-4 ops from {clone, clone_from, to_lean_string, drop, read, push, push_str, insert, insert_str, remove, retain, truncate, pop, clear, reserve, shrink_to}; released from one start barrier; yields injected at the hook points between the uniqueness test / decrement and the access they guard. Oracle for races/UAF/leaks: Miri (vector clocks + weak-memory emulation), several -Zmiri-seed and preemption rates; oracle for values: one String model per thread; exactly-once release: alloc count == dealloc count after all handles are dropped. evaluations = executions; distinct_nontrivial = distinct observed interleavings, i.e. distinct sequences of (thread, hook site) per program as recorded by the Relaxed trace log")
+RULE_C04 = ("random programs from the property's grammar: one heap buffer (17-64 bytes, optional spare capacity), 2-3 threads (the main thread is one of them) each owning a clone (optionally pre-truncated) or borrowing &LeanString, each running 1-4 ops from {clone, clone_from, to_lean_string, drop, read, push, push_str, insert, insert_str, remove, retain, truncate, pop, clear, reserve, shrink_to}; plus two directed program shapes: 'directed pairs' (one thread reads and gives its handle up while the other, after 0-3 scheduler yields, makes ONE copy-or-in-place decision - reserve, push, insert, remove, retain, truncate, pop, clear, shrink_to in turn - so that the decision is taken while the count goes 2 -> 1) and, natively, 'hammers' (every thread clones and drops 40-160 times in a tight loop before editing its own handle, so that count updates overlap in time); released from one start barrier; every third Miri shard uses the release profile because the crate's debug assertions contain Acquire loads that would restore a missing happens-before edge; yields injected at the hook points between the uniqueness test / decrement and the access they guard. Oracle for races/UAF/leaks: Miri (vector clocks + weak-memory emulation), several -Zmiri-seed and preemption rates; oracle for values: one String model per thread; exactly-once release: alloc count == dealloc count after all handles are dropped. evaluations = executions; distinct_nontrivial = distinct observed interleavings, i.e. distinct sequences of (thread, hook site) per program as recorded by the Relaxed trace log")
 
 
 def _strip(args, keys):
